@@ -183,11 +183,11 @@ def check_models(ctx, models, label):
 
 
 def all_trees(n):
-    """all rewrite trees with exactly n nodes over {this, a, 'a from b', union(2-3), inter(2-3), diff}"""
+    """all rewrite trees with exactly n nodes over {this, a, 'a from b', union(1-3), inter(1-3), diff}"""
     if n == 1:
         return [[1, 1], [2, S("a")], [3, S("b"), S("a")]]
     out = []
-    for k in (2, 3):
+    for k in (1, 2, 3):
         for parts in itertools.product(range(1, n), repeat=k):
             if sum(parts) != n - 1:
                 continue
@@ -212,7 +212,7 @@ def tree_models(trees):
 def run(ctx):
     ctx.rule = ("random models: rewrite trees with any position and multiplicity of direct assignment, restrictions with "
                 "wildcards/usersets/conditions, conditions, modular metadata, plus a degenerate stream (outside the "
-                "property's domain: correspondence only) and all rewrite trees up to 5 (quick) / 7 (thorough) nodes; "
+                "property's domain: correspondence only) and all rewrite trees (operators with 1-3 operands) up to 5 (quick) / 6 (thorough) nodes; "
                 "non-trivial = has a direct assignment; distinct by model")
     ctx.assumptions = ["domain = carriable models (every operator has a child, restrictions present where a direct assignment is, "
                        "container parameters have one scalar element type, expression without '}' and '#')"]
@@ -221,7 +221,7 @@ def run(ctx):
     models = [dslgen.gen_wire_model(rng, degenerate=rng.choice([0, 0, 0, 0.2]), p_this=rng.choice([0.15, 0.3, 0.5]))
               for _ in range(n)]
     check_models(ctx, models, "random")
-    maxn = 5 if ctx.tier == "quick" else 7
+    maxn = 5 if ctx.tier == "quick" else 6
     trees = [t for k in range(1, maxn + 1) for t in all_trees(k)]
     ctx.extra["exhaustive_tree_nodes"] = maxn
     ctx.extra["exhaustive_trees"] = len(trees)
